@@ -10,7 +10,7 @@ use crate::{
     gen::{chacha, Cfg, Triple, TripleSpec, BITS},
     props::c03::{build_member, pool_member_valid, verify_members, Member, PoolMember},
     refimpl::Grp,
-    runner::{guarded, no_fixed, sub, CaseLog, PropertyDef, RunCtx, Sub, Tier},
+    runner::{guarded, setup, no_fixed, sub, CaseLog, PropertyDef, RunCtx, Sub, Tier},
 };
 
 #[derive(Clone, Debug, Serialize, Deserialize)]
@@ -80,7 +80,7 @@ pub fn oracle<E: Engine>(ctx: &RunCtx, spec: &CapSpec, log: &mut CaseLog) -> Res
         bulk: spec.target.bulk,
     };
     let t = Triple::<E>::build(&tspec)?;
-    let proof = guarded(|| t.prove())?.map_err(|e| format!("prover refused a valid witness under capacity {}: {:?}", cp, e))?;
+    let proof = setup(guarded(|| t.prove()), "the prover refused or panicked on a valid witness (C01's subject)")?;
     // generator (i, j) is the same point whatever capacity was requested: the vectors for m, c_p and c_v agree on their
     // common prefix, party by party (that they are the DOCUMENTED points is C11's subject)
     let mut base: Option<(Vec<E::P>, Vec<E::P>)> = None;
@@ -128,17 +128,27 @@ pub fn oracle<E: Engine>(ctx: &RunCtx, spec: &CapSpec, log: &mut CaseLog) -> Res
         let cs: Vec<E::P> = vals
             .iter()
             .zip(rs.iter())
-            .map(|(v, r)| E::commit(carried.pc_gens(), &curve25519_dalek::scalar::Scalar::from(*v), r).map_err(|e| format!("{:?}", e)))
+            .map(|(v, r)| E::commit(carried.pc_gens(), &curve25519_dalek::scalar::Scalar::from(*v), r).map_err(crate::runner::skip_err))
             .collect::<Result<_, _>>()?;
         let st_full = RangeStatement::init(carried, cs, vec![None; cp], None).map_err(|e| format!("statement of {} commitments over carried parameters: {:?}", cp, e))?;
-        let w_full = RangeWitness::init(vals.iter().zip(rs.iter()).map(|(v, r)| CommitmentOpening::new(*v, r.clone())).collect()).map_err(|e| format!("{:?}", e))?;
+        let w_full = RangeWitness::init(vals.iter().zip(rs.iter()).map(|(v, r)| CommitmentOpening::new(*v, r.clone())).collect()).map_err(crate::runner::skip_err)?;
+        // the control: the same aggregate over FRESH parameters of that capacity (if that does not work either, it is not a matter
+        // of where the parameters came from)
+        let fresh_st = RangeStatement::init(fresh, st_full.commitments.clone(), vec![None; cp], None).map_err(crate::runner::skip_err)?;
+        let control = setup(
+            guarded(|| E::prove(&mut t.transcript(), &fresh_st, &w_full, &mut crate::eng::RngSpec::ChaCha(spec.order).make())),
+            "the prover refused or panicked on a valid full-capacity aggregate over fresh parameters (C01's subject)",
+        )?;
+        setup(
+            guarded(|| E::verify(&mut [t.transcript()], &[fresh_st.clone()], &[control], VerifyAction::VerifyOnly)),
+            "an honest full-capacity proof is rejected (C01's subject)",
+        )?;
         let pf = guarded(|| E::prove(&mut t.transcript(), &st_full, &w_full, &mut crate::eng::RngSpec::ChaCha(spec.order).make()))?.map_err(|e| {
             format!(
-                "prover refused {} commitments over the capacity-{} parameters taken out of a statement of {} commitments: {:?}",
+                "prover refused {} commitments over the capacity-{} parameters taken out of a statement of {} commitments (it proves them over fresh parameters): {:?}",
                 cp, cp, m, e
             )
         })?;
-        let fresh_st = RangeStatement::init(fresh, st_full.commitments.clone(), vec![None; cp], None).map_err(|e| format!("{:?}", e))?;
         guarded(|| E::verify(&mut [t.transcript()], &[fresh_st], &[pf], VerifyAction::VerifyOnly))?
             .map_err(|e| format!("proof over parameters taken out of a smaller statement refused under fresh parameters of the same capacity: {:?}", e))?;
         log.extra_evals += 2;
